@@ -1003,7 +1003,7 @@ func TestC27(t *testing.T) {
 		Oracle:   oracle,
 		Fixed:    fixed,
 		Quick:    50,
-		Thorough: 2500,
+		Thorough: 1500,
 		Extra: func() map[string]any {
 			statMu.Lock()
 			defer statMu.Unlock()
